@@ -11,14 +11,14 @@ CONFIG = {
         TRANSLATOR + " (ReadmeGen.v: rows of README.md 'Scalar Types'; EncSwitchGen.v: arms of encodeScalarField and scalarGoFromReflect, add* helpers of encoder.go, DateString verb, time layout, base64 encoding)",
         CORR, HARNESS,
         "section hypothesis float_text_ok: strconv.FormatFloat(v,'g',-1,bits) of a finite float is a JSON number (exercised against strconv on every float of every generated message)",
-        "section hypothesis inner_ok: the inner encoding of an Any payload is compact JSON (it is a recursive Codec.encode: C08_inner_encoding_is_compact proves the premise for the encoder run on the payload message of a registered type, nested to any depth; protobuf wire unmarshalling and the type resolver stay abstract)",
+        "premise of C08_full_statement: the inner encoding of an Any payload is a JSON text (for C08_encode_is_print: compact JSON, inner_ok). It is a recursive Codec.encode: C08_inner_encoding_is_compact proves the premise for the encoder run on the payload message of a registered type, nested to any depth; protobuf wire unmarshalling and the type resolver stay abstract",
         "modelled, not verified: protoreflect Has/Get/Range (CodecTypes presence algebra), j5schema ClientProperties (the environment is dumped from the real reflector for every run), strconv.FormatInt/FormatUint, encoding/base64, time.Unix/Format, fmt %04d/%02d, utf8.DecodeRuneInString — each has its own correspondence stream",
     ],
     "assumptions": [
         "schemas of the run: fixed roots of /repo's test schema and of verif.wide.v1 plus schemas generated per seed (random j5s packages compiled with the real compiler; random raw descriptors), every message type the reflector accepts being a root",
         "model/CodecEnc.v is the hand-written model of encoder.go, structure_encode.go, scalarGoFromReflect and the RangeValues/GetOne presence walk; tied to the code by the correspondence stream of this run and by the regenerated switch tables",
         "the specification model/CodecEncSpec.v (wire_format) is declarative; its per-type JSON token class is proved equal to the README table regenerated on every run",
-        "embedded j5_json texts are JSON documents (raw_root_gen json_text; for the stronger C08_encode_is_print: compact JSON); oneof schemas list members with a proto path (oneofs_flat, checked on every environment of the run)",
+        "no condition on the message: a stored j5_json text that is not one JSON value in valid UTF-8 makes the model encoder fail, as the real one does since /repo aae6009 (stored_json; before that fix the text was copied out verbatim and the output was not JSON: C08_any_stored_text_v0_refuted); for the stronger C08_encode_is_print the stored texts are compact JSON (raw_root); oneof schemas list members with a proto path (oneofs_flat, checked on every environment of the run)",
         "Go map iteration order: the model emits VMap entries in list order; theorems quantify over every order; multi-entry maps are compared modulo member order",
     ],
     "mult_search": 4,
@@ -27,7 +27,7 @@ CONFIG = {
 }
 
 MANIFEST = {
-    "text": "Theorems over a Gallina model of the J5 JSON encoder (encodeObjectBody/encodeOneofBody/encodeAny/encodeValue/encodeMap/encodeArray/encodeEnum/encodeScalarField, scalarGoFromReflect, RangeValues/GetOne presence), for all schema environments whose oneof schemas list members with a proto path (oneofs_flat, decided on every environment of the run) and all messages whose stored j5_json texts are JSON documents: a successful encoding is a text that the strict RFC 8259 reader reads as a tree J (for compact stored texts it is exactly the compact print of J; parse(print J) = J proved for all well-formed trees; a standalone JSON text is read the same way inside a longer text) and that satisfies the declarative wire format (32-bit ints/floats/bools bare, 64-bit ints and decimals quoted, bytes padded std base64 with the strict std decoder as inverse, timestamps of years 0001-9999 as YYYY-MM-DDTHH:MM:SS[.fraction]Z whose fields denote the encoded instant in UTC and which the RFC 3339 reader reads back, dates as 4-2-2 zero-padded digits that read back as the same numbers, oneof = {} or {!type, that key}, Any = {!type, value} where the value of a j5 Any storing JSON text is that text's JSON value (a payload stored as proto bytes: whatever the inner encoding yields), unset omitted); enum option names, member JSON names and the hoisting of flattened children are those of the environment dumped from the real reflector (ClientProperties) — their correctness is the reflector's, not a theorem here; NaN/Inf and out-of-range dates/timestamps still give well-formed JSON. The per-type token class of the specification is proved equal to README.md's Scalar Types table, the Go switch tables re-read on every run are proved equal to a label table (model_repr), and every successful output of the model's scalar arms is proved to have the shape its label says (C08_scalar_arms).",
-    "note": "C08_full_statement is a proved theorem (embedded j5_json / inner Any texts: any well-formed JSON text, copied verbatim; proofs/CodecEncEmbed.v). A j5 Any whose stored j5_json bytes are not JSON is encoded verbatim by the real encoder (non-JSON output, no error); such messages are not representable in the wire format, hence outside the property's quantifier, and are counted as outside_domain_illformed_j5json, not judged. Section hypotheses (explicit premises): strconv float text is a JSON number; inner Any encodings are JSON. Trusted: Coq kernel, translator, harness; protoreflect presence, the reflector's ClientProperties, strconv, base64, time, fmt are modelled and tied by correspondence, not verified. All theorems closed under the global context.",
+    "text": "Theorems over a Gallina model of the J5 JSON encoder (encodeObjectBody/encodeOneofBody/encodeAny/encodeValue/encodeMap/encodeArray/encodeEnum/encodeScalarField, scalarGoFromReflect, RangeValues/GetOne presence), for all schema environments whose oneof schemas list members with a proto path (oneofs_flat, decided on every environment of the run) and ALL messages: a successful encoding is a text that the strict RFC 8259 reader reads as a tree J (for compact stored texts it is exactly the compact print of J; parse(print J) = J proved for all well-formed trees; a standalone JSON text is read the same way inside a longer text) and that satisfies the declarative wire format (32-bit ints/floats/bools bare, 64-bit ints and decimals quoted, bytes padded std base64 with the strict std decoder as inverse, timestamps of years 0001-9999 as YYYY-MM-DDTHH:MM:SS[.fraction]Z whose fields denote the encoded instant in UTC and which the RFC 3339 reader reads back, dates as 4-2-2 zero-padded digits that read back as the same numbers, oneof = {} or {!type, that key}, Any = {!type, value} where the value of a j5 Any storing JSON text is that text's JSON value (a payload stored as proto bytes: whatever the inner encoding yields), unset omitted); enum option names, member JSON names and the hoisting of flattened children are those of the environment dumped from the real reflector (ClientProperties) — their correctness is the reflector's, not a theorem here; NaN/Inf and out-of-range dates/timestamps still give well-formed JSON. The per-type token class of the specification is proved equal to README.md's Scalar Types table, the Go switch tables re-read on every run are proved equal to a label table (model_repr), and every successful output of the model's scalar arms is proved to have the shape its label says (C08_scalar_arms).",
+    "note": "C08_full_statement is a proved theorem with no premise on the message (embedded j5_json / inner Any texts: any well-formed JSON text, copied verbatim; proofs/CodecEncEmbed.v). Found and repaired in this work: a j5 Any whose stored j5_json bytes are not JSON was copied out verbatim (ProtoToJSON succeeded with a non-JSON text); /repo aae6009 makes encodeAny check json.Valid && utf8.Valid and fail otherwise, the model follows (stored_json), the oracle judges such messages (pinned corpus any-stored-text, counter refused_illformed_stored_j5json). Section hypotheses (explicit premises): strconv float text is a JSON number; inner Any encodings are JSON. Trusted: Coq kernel, translator, harness; protoreflect presence, the reflector's ClientProperties, strconv, base64, time, fmt are modelled and tied by correspondence, not verified. All theorems closed under the global context.",
     "technique": "Rocq/Coq proof (print/parse inverse for JSON trees by induction, structural induction on encoder fuel, computed agreement with README and go/ast tables) + in-Coq differential correspondence on generated (schema, message) pairs + schema-directed wire-format oracle on real output",
 }
